@@ -632,7 +632,14 @@ func main() {
 				if int64(len(dump)) != memdb.VerifKeyCount(db) {
 					report("keycount", fmt.Sprintf("key counter %d but %d keys stored", memdb.VerifKeyCount(db), len(dump)))
 				}
+				objOwner := map[uintptr]string{}
 				for _, v := range dump {
+					if v.Obj != 0 {
+						if other, dup := objOwner[v.Obj]; dup {
+							report("structure", fmt.Sprintf("keys %q and %q share one %s object", other, v.Key, v.Type))
+						}
+						objOwner[v.Obj] = v.Key
+					}
 					if v.Type == "list" && (!v.ListFwdOK || !v.ListBckOK || len(v.ListFwd) != v.ListLen || len(v.ListBack) != v.ListLen) {
 						report("structure", fmt.Sprintf("list %q: Len=%d forward=%d backward=%d", v.Key, v.ListLen, len(v.ListFwd), len(v.ListBack)))
 					}
